@@ -53,12 +53,15 @@ pub fn read(t: &syn::Type) -> Result<S, String> {
             if f.lifetimes.is_some() || f.variadic.is_some() {
                 return Err("fn pointer feature outside the alphabet".into());
             }
-            let unsafe_c = match (&f.unsafety, &f.abi) {
-                (None, None) => false,
-                (Some(_), Some(abi)) if abi.name.as_ref().map(|n| n.value()) == Some("C".into()) => {
-                    true
-                }
-                _ => return Err("fn pointer header outside the alphabet".into()),
+            let is_unsafe = f.unsafety.is_some();
+            let c_abi = match &f.abi {
+                None => false,
+                // a bare `extern` means "C" in Rust
+                Some(abi) => match abi.name.as_ref().map(|n| n.value()) {
+                    None => true,
+                    Some(n) if n == "C" => true,
+                    Some(_) => return Err("fn pointer abi outside the alphabet".into()),
+                },
             };
             let mut inputs = Vec::new();
             for i in &f.inputs {
@@ -71,7 +74,8 @@ pub fn read(t: &syn::Type) -> Result<S, String> {
             S::Fn {
                 inputs,
                 output,
-                unsafe_c,
+                is_unsafe,
+                c_abi,
             }
         }
         syn::Type::Path(p) => {
